@@ -7,6 +7,7 @@ def handlers : List (List String → Option String) := [
   Lou.Alloc.handle?,
   Lou.Resolve.handle?,
   Lou.Log.handle?,
+  Lou.Lexer.handle?,
   Lou.HyphProto.handle?,
   Lou.Meta.handle?,
   Lou.ImageProto.handle?,
